@@ -124,10 +124,12 @@ struct dcr_conf {
 	unsigned tcp_flags;        /* bit 0 use-vc, bit 1 ignore-tc */
 	int bound;                 /* bind-to address accepted: +1 per accepted bind-to */
 };
-/* Apply one option.  `lv`/`l_whole`: what libc's strtol reported for `val` (value, whole text consumed); `d`/`d_whole`:
- * the same for strtod; `addr_ok` says that the address parser accepted `val` (bind-to).  Returns the documented result
- * (0 / -1) and updates *c. */
-static int dcr_set_option(struct dcr_conf *c, const char *option, const char *val, int flags, long lv, int l_whole, double d, int d_whole, int addr_ok)
+/* Apply one option.  `lv`/`l_whole`: what libc's strtol reported for `val` (value, whole text consumed); `t_ok`,
+ * `t_s`, `t_us`: `val` read as a time (dcr_timeval of what strtod reported, t_ok = whole text consumed and valid);
+ * `addr_ok` says that the address parser accepted `val` (bind-to).  Returns the documented result (0 / -1) and
+ * updates *c. */
+static int dcr_set_option(struct dcr_conf *c, const char *option, const char *val, int flags, long lv, int l_whole,
+    int t_ok, long t_s, long t_us, int addr_ok)
 {
 	int k = dcr_opt_find(option), v = 0;
 	long s = 0, u = 0;
@@ -138,7 +140,8 @@ static int dcr_set_option(struct dcr_conf *c, const char *option, const char *va
 	case DCR_INT: case DCR_INT_MAX255: if (!dcr_int(lv, l_whole, &v)) return -1; if (o->kind == DCR_INT_MAX255 && v > 255) v = 255; break;
 	case DCR_CLIP: if (!dcr_int_clipped(lv, l_whole, o->lo, o->hi, &v)) return -1; break;
 	case DCR_TIME: case DCR_TIME_MAX3600:
-		if (!d_whole || !dcr_timeval(d, &s, &u)) return -1;
+		if (!t_ok) return -1;
+		s = t_s; u = t_us;
 		if (o->kind == DCR_TIME_MAX3600 && s > 3600) s = 3600;
 		break;
 	case DCR_FLAG:
